@@ -28,12 +28,51 @@ class Report:
         self.items = []
         self.stats = {"functions": set(), "paths": 0, "sites": 0}
         self.exhaustive = []
+        self.canon = []
+
+    def set_canon(self, anchors):
+        """instance keys name crate-private types / fields by their role, so that renaming a
+        private item does not change a key (known findings are matched by exact key)"""
+        import re
+        pairs = []
+
+        def add(getter, role):
+            try:
+                name = getter()
+            except Exception:
+                return
+            if name and name != role:
+                pairs.append((re.compile(r"(?<![A-Za-z0-9_])" + re.escape(name) + r"(?![A-Za-z0-9_])"), role))
+
+        A = anchors
+        # lock ids first (Type.field), then bare type names
+        add(lambda: "%s.%s" % (A.name_of(A.store), A.f_subscribers), "StoreImpl.subscriber-list")
+        add(lambda: "%s.%s" % (A.name_of(A.store), A.f_tx), "StoreImpl.sender-slot")
+        add(lambda: "%s.%s" % (A.name_of(A.store), A.f_state), "StoreImpl.state-cell")
+        add(lambda: "%s.%s" % (A.name_of(A.store), A.f_reducers), "StoreImpl.reducer-list")
+        add(lambda: "%s.%s" % (A.name_of(A.store), A.f_middlewares), "StoreImpl.middleware-list")
+        add(lambda: "%s.%s" % (A.name_of(A.store), A.f_pool), "StoreImpl.pool-slot")
+        add(lambda: "%s.%s" % (A.name_of(A.channeled_adt), A.f_ch_tx), "ChanneledWrapper.sender-slot")
+        add(lambda: "%s.%s" % (A.name_of(A.channeled_adt), A.f_ch_handle), "ChanneledWrapper.thread-handle")
+        add(lambda: "%s.%s" % (A.name_of(A.selector_adt), A.f_sel_last), "SelectorSubscriber.remembered-value")
+        add(lambda: A.name_of(A.channeled_adt), "ChanneledWrapper")
+        add(lambda: A.name_of(A.feeder_adt), "IteratorFeeder")
+        add(lambda: A.name_of(A.iterator_adt), "StateIter")
+        add(lambda: A.name_of(A.sender_adt), "SendWrapper")
+        add(lambda: A.name_of(A.receiver_adt), "RecvWrapper")
+        add(lambda: A.name_of(A.metrics_adt), "StoreMetrics")
+        self.canon = pairs
+
+    def _k(self, key):
+        for rx, role in self.canon:
+            key = rx.sub(role, key)
+        return key
 
     def ok(self, rule, key, where="", detail="", nontrivial=True):
-        self.items.append(Item(rule, "%s:%s" % (rule, key), True, where, detail, nontrivial))
+        self.items.append(Item(rule, self._k("%s:%s" % (rule, key)), True, where, detail, nontrivial))
 
     def bad(self, rule, key, where="", detail=""):
-        self.items.append(Item(rule, "%s:%s" % (rule, key), False, where, detail))
+        self.items.append(Item(rule, self._k("%s:%s" % (rule, key)), False, where, detail))
 
     def check(self, cond, rule, key, where="", detail_ok="", detail_bad=""):
         if cond:
